@@ -23,7 +23,7 @@ UNITS_LOCAL = {"C20": [
          budget={"quick": 400, "thorough": 1500},
          rule="histories = (API in {TraceRecorder object + ThreadEventList methods, global functions}) x (processName null / non-null) x (thread names set / not set) x per-thread event words: "
               "(0) nothing recorded at all; (1) every well-nested word over {begin,end,marker,counter} (end only inside an open begin; open begins may remain) of length <= 5 (thorough 6), "
-              "recorded by T in {1,2,8} (thorough 1..8) threads where thread k records word (i + k*stride) mod N, so every word is seen in every thread position (quick: thread naming alternates with the case index instead of being crossed); "
+              "recorded by T in {1,2,8} (thorough 1..8) threads where thread k records word (i + k*stride) mod N, so every word is seen in every thread position (quick, and thorough for T >= 3: thread naming - and for thorough T >= 3 also processName - alternates with the case index instead of being crossed); "
               "(2) chunk edges: lengths {0,1,8191,8192,8193,16385} of the periodic pattern lead*marker (begin^d marker counter end^d)* for depth d in 0..4, lead 0 (thorough: for 1 and 2 threads every lead < 2d+2, i.e. every phase of the pattern against the 8192-event chunk), "
               "T in {1,2,8} (thorough 1..8) threads with thread k using length index li+k, depth d+k, lead o+k. Thread 0 is the process's main thread, the others are std::threads joined before saveLog; every history runs in a forked child. "
               "The log is parsed by a strict RFC 8259 parser; per thread (matched through the thread_name metadata) the non-metadata, non-built-in events must equal the recorded ones (phase, name, category when given, counter value) in order. "
